@@ -106,6 +106,12 @@ class Serializer(pickle.Pickler):
             else:
                 id_ = f"table:{obj.key}"
         elif isinstance(obj, Column) and isinstance(obj.table, Table):
+            entity = obj._annotations.get("parententity", None)
+            if entity is not None and not entity.is_mapper:
+                # column of an aliased() / with_polymorphic() entity that is
+                # not adapted to an alias (e.g. non-flat with_polymorphic):
+                # the entity annotation decides the FROM clause, keep it
+                return None
             id_ = f"column:{obj.table.key}:{obj.key}"
         elif isinstance(obj, Session):
             id_ = "session:"
